@@ -14,6 +14,7 @@ from vmc.core import scratch
 from vmc.core.rec import HarnessError
 
 ID = "C02"
+TECHNIQUE = 'explicit-state breadth-first search over histories of producing operations with a schema invariant evaluated on every collection in every state + exhaustive function-level enumeration of the index builders with forced block sizes'
 LEVEL = "model_checking"
 RULE = ("rle leg: rlencode(a, chunksize=c) for EVERY array over {0,1,2} of length <=7 (3280 arrays) x c=1..8 against itertools.groupby; "
         "index leg: index_pixels / index_bins on a dict-backed group for EVERY non-decreasing id sequence of length <=6 over <=4 bins, "
